@@ -11,7 +11,7 @@ ASSUMPTIONS = [
 STUBS = ["FakeProcess/FakeStdin", "async-iterator outgoing stream"]
 OUTSIDE = ["content fidelity beyond the corpus (compiled codecs)", "sequences longer than 2 (quick) / 3 (thorough) items", "pre-serialised strings longer than 3 characters in the symbolic family"]
 
-ALL = list(range(13))
+ALL = list(range(15))
 
 
 def obligations(tier, ctx):
@@ -21,12 +21,12 @@ def obligations(tier, ctx):
         if n == 1:
             tuples = [(k,) for k in ALL]
         elif n == 2:
-            tuples = list(itertools.product(ALL, repeat=2)) if tier != "quick" else [(a, b) for a in (0, 3, 4, 5, 7) for b in (1, 2, 6, 8)] + [(5, 5), (4, 4), (9, 0), (12, 10), (11, 12), (5, 12)]
+            tuples = list(itertools.product(ALL, repeat=2)) if tier != "quick" else [(a, b) for a in (0, 3, 4, 5, 7) for b in (1, 2, 6, 8)] + [(5, 5), (4, 4), (9, 0), (12, 10), (11, 12), (5, 12), (13, 14), (14, 0)]
         else:
             tuples = [(a, b, c) for a in (0, 4, 5) for b in (5, 7, 2) for c in (1, 4, 6)]
         for kt in tuples:
             ss = [f"s{i}" for i in range(n)]
-            obs.append(Ob(name="writer_" + "".join(map(str, kt)), params=[(s, "int") for s in ss], pre=[(f"0 <= {s} <= 7" if kt[i] not in (5, 6, 7) else f"{s} == 0") for i, s in enumerate(ss)],
+            obs.append(Ob(name="writer_" + "".join(map(str, kt)), params=[(s, "int") for s in ss], pre=[(f"0 <= {s} <= 7" if kt[i] not in (5, 6, 7, 13, 14) else f"{s} == 0") for i, s in enumerate(ss)],
                           call=f"H.writer({kt!r}, [{', '.join(ss)}])", backend="P", timeout=300, family="item sequences, payload by corpus index"))
     # pre-serialised string: every string over an 8-character alphabet (LF, CR, digit, brackets, space, quote, non-ASCII)
     # up to length 2 (quick) / 3 (thorough).  Unrestricted characters make the engine enumerate code points one by one
